@@ -15,6 +15,20 @@
       `nextId`     allocation counter: ids are never reused;
       `onEvict`    is not state: every operation returns the list of `(key, value)` pairs the callback is invoked with,
                    in invocation order.
+  Not modelled: `Resize` and `GetOldest` (not reachable through `types.LRUCacheHandler`, the interface lrucache.go uses).
+
+  Results
+    * `Inv` (representation invariant), `inv_step` (kept by every operation), `Inv.sameKeys`, `Inv.sameLen`, `Inv.deref`;
+    * `step_refines`, `lib_refines_plain_model` (every history), `lib_refines_plain_model_eq` (equal traces without `Purge`);
+    * on the library model: `lib_len_le_size`, `lib_add_evicts_lru`, `lib_add_present`, `lib_add_then_read`,
+      `lib_get_contains_peek`, `lib_containsOrAdd`, `lib_remove`, `purge_callbacks_perm`;
+    * `lib_refines_reference`: under the `lruCache` wrapper the library model refines the reference LRU of RefSpec.lean.
+  Correspondence with the hand model `Simple`: NO behavioural difference was found on the common operations (`Add` returns
+  false on overwrite in both, `Keys` is oldest-first in both, `ContainsOrAdd` does not refresh in both).  What the hand model
+  lacks: the `present` result of `Remove` (read off as `has`), `RemoveOldest` (`dropLast`), and the callback altogether —
+  its counterpart is `gone`, the entries that leave the state.  Two facts about the callback worth knowing: the library
+  invokes it on `Remove`/`RemoveOldest`/`Purge` too, not only on capacity evictions (`lib_remove`), and `Purge` invokes it in
+  Go's map iteration order, so only the multiset of `Purge` callbacks is determined (last-but-one example of section 10).
 -/
 import SV.LRU.RefSpec
 import SV.Persist.ShardedProofs
@@ -1367,7 +1381,7 @@ theorem lib_remove (c : LRU) (k : Bytes) (h : Inv c) :
   | some id =>
     have hc : c.contains k = true := by rw [LRU.contains, hl]; rfl
     obtain ⟨e, he, hek, _, _, hd⟩ := h.core.resolve hl
-    obtain ⟨_, _, _, hpk, _, _⟩ := present_case h [] hl
+    have hpk : c.peek k = some e.val := by simp only [LRU.peek, hl, hd]; rfl
     subst hek
     have hrm : c.remove e.key = ((c.removeElement e).1, true, (c.removeElement e).2) := by
       simp only [LRU.remove, hl, hd]
@@ -1376,10 +1390,7 @@ theorem lib_remove (c : LRU) (k : Bytes) (h : Inv c) :
     rw [hrm] at hi ⊢
     rw [hc]
     refine ⟨rfl, (fun hf => by cases hf), fun _ => ⟨_, hpk, ?_, ?_, ?_⟩⟩
-    · obtain ⟨e', _, hek', _, _, hd'⟩ := h.core.resolve hl
-      rw [hd] at hd'
-      cases hd'
-      rfl
+    · rfl
     · rw [contains_eq_find hi]
       show ((c.removeElement e).1.evictList.find? (·.key == e.key)).isSome = false
       rw [hev, find_filter_key, if_pos rfl]
